@@ -73,28 +73,39 @@ Lemma asc_of_ao ins (l : list (path * option value)) :
   ForallOrdPairs (fun x y => ~ idx_lt (fst y) (fst x)) l -> asc (map (fun pv => IAdd ins (fst pv) (snd pv)) l).
 Proof. unfold asc. apply FOP_map. intros x y _ _ H. exact H. Qed.
 
+(* the order oracles are only consulted on the lists of one delta *)
+Definition orders_ok_at (ro : list (path * value) -> list (path * value))
+    (ao : list (path * option value) -> list (path * option value)) (d : delta) : Prop :=
+  (Permutation (d_irem d) (ro (d_irem d)) /\ ForallOrdPairs (fun x y => ~ idx_lt (fst x) (fst y)) (ro (d_irem d))) /\
+  (Permutation (d_drem d) (ro (d_drem d)) /\ ForallOrdPairs (fun x y => ~ idx_lt (fst x) (fst y)) (ro (d_drem d))) /\
+  (Permutation (map (fun pv => (fst pv, Some (snd pv))) (d_iadd d)) (ao (map (fun pv => (fst pv, Some (snd pv))) (d_iadd d))) /\
+   ForallOrdPairs (fun x y => ~ idx_lt (fst y) (fst x)) (ao (map (fun pv => (fst pv, Some (snd pv))) (d_iadd d)))).
+
+Lemma orders_ok_of_global ro ao d : ro_ok ro -> ao_ok ao -> orders_ok_at ro ao d.
+Proof. intros Hro Hao. unfold orders_ok_at. repeat split; try apply Hro; apply Hao. Qed.
+
 (* [apply] through the item passes *)
 Lemma apply_passes conv ro ao d v :
-  ro_ok ro -> ao_ok ao -> d_moved d = [] ->
+  orders_ok_at ro ao d -> d_moved d = [] ->
   exists P, Arr (base d) P /\
     apply conv ro ao d v =
       (root (finish conv (d_bidir d) (run_passes conv (d_bidir d) P (mkSt v [] 0))),
        errs (finish conv (d_bidir d) (run_passes conv (d_bidir d) P (mkSt v [] 0)))).
 Proof.
-  intros Hro Hao Hm.
+  intros ([Pr6 Or6] & [Pr9 Or9] & [Pa7 Oa7]) Hm.
   set (q6 := map (fun pv => IRem (fst pv) (snd pv)) (ro (d_irem d))).
   set (q7 := map (fun pv : path * option value => IAdd true (fst pv) (snd pv))
                  (ao (map (fun pv => (fst pv, Some (snd pv))) (d_iadd d)))).
   set (q9 := map (fun pv => IRem (fst pv) (snd pv)) (ro (d_drem d))).
   exists [p1 d; p2 d; p3 d; p4 d; p5 d; q6; q7; p8 d; q9]. split.
   - cbn. repeat split; try reflexivity.
-    + unfold p6, q6. apply Permutation_map. apply Hro.
-    + apply desc_of_ro. apply Hro.
+    + unfold p6, q6. apply Permutation_map. exact Pr6.
+    + apply desc_of_ro. exact Or6.
     + unfold p7, q7. rewrite <- (map_map (fun pv => (fst pv, Some (snd pv))) (fun pv : path * option value => IAdd true (fst pv) (snd pv))).
-      apply Permutation_map. apply Hao.
-    + apply asc_of_ao. apply Hao.
-    + unfold p9, q9. apply Permutation_map. apply Hro.
-    + apply desc_of_ro. apply Hro.
+      apply Permutation_map. exact Pa7.
+    + apply asc_of_ao. exact Oa7.
+    + unfold p9, q9. apply Permutation_map. exact Pr9.
+    + apply desc_of_ro. exact Or9.
   - unfold apply. rewrite <- (finish_do_post conv (d_bidir d)). cbv zeta.
     unfold run_passes. cbn [fold_left].
     unfold p1, p2, p3, p4, p5, p8, q6, q7, q9.
@@ -112,7 +123,7 @@ Proof.
                  = fold_left (fun s pv => add_one true s (fst pv) (snd pv)) (ao (map (fun pv => (fst pv, Some (snd pv))) (d_iadd d))) s).
     { intros s. unfold do_iterable_item_added. rewrite Hm. cbn [map]. rewrite app_nil_r.
       destruct (map (fun pv => (fst pv, Some (snd pv))) (d_iadd d)) eqn:E.
-      - destruct (Hao []) as [Hp _]. apply Permutation_nil in Hp. rewrite Hp. reflexivity.
+      - apply Permutation_nil in Pa7. rewrite Pa7. reflexivity.
       - reflexivity. }
     rewrite <- E6, <- E7. reflexivity.
 Qed.
